@@ -224,9 +224,13 @@ bool ossOperationsFacet::SaveOperationResult(
 ) {
   auto& opHandle = operations.at(pid);
   assert(opHandle != nullptr);
-  const auto guard = core.DndGuard();
   const auto oldHash = core.Src()(pid)->coreHash;
-  if (!core.Src().InputData(pid, std::move(opResult.value))) {
+  auto stored = false;
+  {
+    const auto guard = core.DndGuard(); // Note: mute only notifications caused by writing the result itself
+    stored = core.Src().InputData(pid, std::move(opResult.value));
+  }
+  if (!stored) {
     opHandle->broken = true;
     return false;
   } else {
